@@ -399,7 +399,9 @@ pub fn gen_fault(rng: &mut Rng) -> Vec<u8> {
             let mut qs = Vec::new();
             for k in 0..n {
                 let (t, c) = if k == bad {
-                    match rng.below(6) {
+                    match rng.below(8) {
+                        6 => (1, *rng.pick(&[0x8001u16, 0x0101, 0x0100, 0, 2, 4, 254, 0xffff])), // one bit / byte next to IN (mDNS unicast-response bit ...)
+                        7 => (*rng.pick(&[0x8001u16, 0x0101, 0x0100, 0, 2, 5, 0xffff]), 1),     // ... and next to A
                         0 => (16u16, 3u16), // TXT CH (version.bind)
                         1 => (28, 1),       // AAAA
                         2 => (255, 1),      // ANY
